@@ -17,8 +17,8 @@ import (
 	"pgregory.net/rapid"
 )
 
-var lifeOps14 = []string{"connect", "connect", "connect", "call", "call", "close", "abort", "failcall", "shutdown", "shutdown", "shutdown-race", "shutdown-early", "cancel", "bind-again", "serve", "serve", "late-connect", "expiry"}
-var lifeOps15 = []string{"connect-expiry", "connect-expiry", "connect", "connect", "call", "close", "close", "abort", "failcall", "expiry", "expiry", "expiry", "shutdown", "serve", "late-connect", "cancel"}
+var lifeOps14 = []string{"connect", "connect", "connect", "call", "call", "call-partial", "call-partial", "close", "abort", "failcall", "shutdown", "shutdown", "shutdown-race", "shutdown-early", "cancel", "bind-again", "serve", "serve", "late-connect", "expiry"}
+var lifeOps15 = []string{"call-partial", "connect-expiry", "connect-expiry", "connect", "connect", "call", "close", "close", "abort", "failcall", "expiry", "expiry", "expiry", "shutdown", "serve", "late-connect", "cancel"}
 
 func genLife(t *rapid.T, ops []string, timeout bool) LifeCase {
 	c := LifeCase{Timeout: timeout}
@@ -33,7 +33,7 @@ func checkC14(c LifeCase, st *Stats) error {
 	facts, err := ExecLife(c, protoBound)
 	nt := facts["shutdown-with-open-conns"] > 0 || facts["re-serve"] >= 1 || facts["shutdown-race"] > 0 || facts["shutdown-early"] > 0
 	var labels []string
-	for _, k := range []string{"shutdown-with-open-conns", "re-serve", "shutdown-race", "shutdown-early", "cancel", "abort", "failcall", "bind-during-serving", "late-connect", "call-while-draining", "expiry-idle"} {
+	for _, k := range []string{"shutdown-with-open-conns", "re-serve", "shutdown-race", "shutdown-early", "cancel", "abort", "failcall", "bind-during-serving", "late-connect", "call-while-draining", "expiry-idle", "call-partial"} {
 		if facts[k] > 0 {
 			labels = append(labels, "has:"+k)
 		}
